@@ -119,7 +119,7 @@ def _gated(ctx):
 def _gated_run(ctx, abandon):
     behs = []
     for cap in (1, 2) if abandon == "no" else (2, 3) if abandon == "superseded" else (1, 2):
-        behs += ctx.tlc_simulate("MqttConnCap_Gen", GEN_PARK % (cap, abandon), num=(60 if ctx.quick else 600) // (1 if abandon == "no" else 2), depth=15, timeout=600)
+        behs += ctx.tlc_simulate("MqttConnCap_Gen", GEN_PARK % (cap, abandon), num=(60 if ctx.quick else 600) if abandon == "no" else (30 if ctx.quick else 150), depth=15, timeout=600)
     if abandon != "no":
         behs = [b for b in behs if any(s_.get("a") == "abandon" for s_ in b)]
     seen, uniq = set(), []
